@@ -1,6 +1,6 @@
 """C06 — the generated ninja file is a well-formed build graph."""
 import json
-from .. import core, manifest_checks as mc
+from .. import core, genproj, manifest_checks as mc
 from . import gen_common
 
 def nonshareable(files):
@@ -48,6 +48,24 @@ def run(rep, tier, seed, rng):
             if not any(u or any(mc.norm(dt).startswith(d + "/") for d in clash)
                        for _, dt, u in mc.wf_manifest(r["model_parsed"], [b["out"] for b in r["model"]["builds"]])):
                 rep.violation("model file fails wf_manifestb outside the known class", gen_common.replay_data(r), found_input=False)
+    # other build directories (-B): the paths laze chooses follow ${build-dir}
+    bcases = []
+    for _ in range(30 if tier == "quick" else 400):
+        f, c = genproj.gen_project(rng, focus="build")
+        c = dict({k: v for k, v in c.items() if k != "local"}, build_dir=rng.choice(["out", "b/nested", "build2", "o.d"]))
+        bcases.append((f, c))
+    _l, _d, bres = gen_common.run_cases(bcases)
+    nbd = 0
+    for (f, c), r in zip(bcases, bres):
+        nbd += 1
+        if r["tags"] & {"crash", "rc", "predicted-panic", "ninja", "configured"}:
+            ndis += 1
+            rep.violation("model and implementation disagree with -B %s: %s" % (c["build_dir"], "; ".join(r["dis"])[:300]), gen_common.replay_data(r), found_input=False)
+        parsed = r.get("impl_parsed")
+        if parsed is not None:
+            for clause, detail in mc.under_builddir(parsed, c["build_dir"]):
+                rep.violation("laze-chosen path outside the build directory %s: %s" % (c["build_dir"], detail), gen_common.replay_data(r, clause=clause, detail=detail), found_input=True)
+    rep.cov.update(other_build_dirs=nbd)
     if nuser and not known:
         rep.violation("user-chosen outputs collide but no known finding is recorded", {}, found_input=False)
     rep.cov.update(evaluations=len(cases), distinct_nontrivial=len(distinct),
